@@ -1,4 +1,4 @@
-import Lt.RS
+import RedisGoModel.Raft.RS
 namespace RS
 variable {N : Nat}
 
